@@ -339,10 +339,17 @@ func aliasScenario(c *core.Ctx) {
 					break
 				}
 				seq = append(seq, a.Hits...)
-				after = a.Hits[len(a.Hits)-1].Sort
+				after = r.AfterKeys(a.Hits[len(a.Hits)-1].Sort)
+				if len(seq) > cfg.NDocs+5 {
+					// an explicitly typed sort cannot page past a document that lacks the field (the "missing"
+					// marker does not decode to a number or date, so the next page starts at 0 again): single index
+					// and alias agree on that, and it is not C09's subject
+					c.Probe("typed_walk_stalled_on_missing_value")
+					break
+				}
 			}
 			if len(seq) > 1 {
-				before := seq[len(seq)-1].Sort
+				before := r.AfterKeys(seq[len(seq)-1].Sort)
 				a, b, ok := both(r.String(), func() *bleve.SearchRequest {
 					req := r.Bleve()
 					req.SetSearchBefore(before)
